@@ -1002,15 +1002,63 @@ def _touches_task(br: BRModel, m: Func) -> bool:
 # R7 the disconnect flag never pre-empts buffered messages on the receive side
 # ---------------------------------------------------------------------------
 
+def _ws_helper_uses(p, ws, f: Func):
+    """(expression, callee) for every use in `f` of another member of the WebSocket class that runs code of that
+    class: ``self.m(...)`` for a method, ``self.prop`` (loaded) for a property."""
+    out = []
+    called = set()
+    for c in walk_self(f.node):
+        if isinstance(c, ast.Call) and isinstance(c.func, ast.Attribute) and isinstance(c.func.value, ast.Name) and c.func.value.id == 'self':
+            m = p.lookup_method(ws.qual, c.func.attr)
+            if m is not None and not m.is_property():
+                out.append((c, m))
+                called.add(id(c.func))
+    for x in walk_self(f.node):
+        if isinstance(x, ast.Attribute) and id(x) not in called and isinstance(x.ctx, ast.Load) and isinstance(x.value, ast.Name) and x.value.id == 'self':
+            m = p.lookup_method(ws.qual, x.attr)
+            if m is not None and m.is_property():
+                out.append((x, m))
+    return out
+
+
+R7_DEPTH = 4    # bound on the chain of same-class helpers looked through (deeper -> unknown idiom)
+
+
+def _ws_closure(p, ws, root: Func, stop=lambda m: False) -> Dict[str, Func]:
+    """`root` and the members of the WebSocket class it uses, transitively (bounded)."""
+    seen: Dict[str, Func] = {}
+    work = [(root, 0)]
+    while work:
+        f, d = work.pop()
+        if f.qual in seen:
+            continue
+        seen[f.qual] = f
+        for (_e, m) in _ws_helper_uses(p, ws, f):
+            if stop(m) or m.qual in seen:
+                continue
+            if d + 1 > R7_DEPTH:
+                raise UnknownIdiom('%s: chain of WebSocket helpers deeper than %d below %s' % (m.qual, R7_DEPTH, root.qual))
+            work.append((m, d + 1))
+    return seen
+
+
 def r7_receive_ignores_flag(run):
     """The pump raises `client_disconnected` as soon as it PULLS the disconnect
     event, possibly while earlier messages are still queued.  The flag is for
     senders ("reported to a sender promptly"); a receiver learns about the
     disconnect from the queue, after the messages that preceded it.  Decided:
     no code that runs on the receive path of WebSocket before the queued event
-    is obtained (the receive_* methods, their shared state guard) reads the
-    flag.  W: client sends m0 then leaves before the app's next receive:
-    receive_text() raises WebSocketDisconnected and m0 is lost."""
+    is obtained (the receive_* methods, their shared state guard, and every
+    method/property of the class these use, transitively) reads the flag.
+    W: client sends m0 then leaves before the app's next receive:
+    receive_text() raises WebSocketDisconnected and m0 is lost.
+
+    Same-class helpers are looked through on both sides: the flag is what
+    ``_send`` reads directly *or in a helper it calls*; on the receive path a
+    helper that belongs to the sender's side (reachable from ``_send``) is
+    legitimate code - the defect is the place where the receive path enters it,
+    so the violation is the call (or property read) in the receive-side
+    function."""
     p = run.project
     ws = p.cls('falcon.asgi.ws.WebSocket')
     recv = p.cls('falcon.asgi.ws._BufferedReceiver')
@@ -1025,31 +1073,54 @@ def r7_receive_ignores_flag(run):
     send = ws.methods.get('_send')
     if send is None:
         raise AnchorError('WebSocket._send not found')
-    flags = {x.attr for x in ast.walk(send.node) if isinstance(x, ast.Attribute) and x.attr in pump_sets}
+    sender_side = _ws_closure(p, ws, send)
+
+    def direct_reads(f: Func, names):
+        return [x for x in ast.walk(f.node) if isinstance(x, ast.Attribute) and x.attr in names and isinstance(x.ctx, ast.Load)]
+
+    flags = {x.attr for g in sender_side.values() for x in direct_reads(g, pump_sets)}
     if not flags:
         raise AnchorError('the disconnect flag shared by the pump and WebSocket._send was not identified')
+    run.extra['c18_sender_side_flag'] = {'flags': sorted(flags), 'read_in': sorted(q for q, g in sender_side.items() if direct_reads(g, flags))}
     entry = [m for name, m in sorted(ws.methods.items()) if name.startswith('receive_')]
     if len(entry) < 3:
         raise AnchorError('WebSocket.receive_* methods not found')
-    seen = {}
-    work = list(entry)
-    while work:
-        f = work.pop()
-        if f.qual in seen:
-            continue
-        seen[f.qual] = f
-        for c in walk_self(f.node):
-            if isinstance(c, ast.Call) and isinstance(c.func, ast.Attribute) and isinstance(c.func.value, ast.Name) and c.func.value.id == 'self':
-                m = p.lookup_method(ws.qual, c.func.attr)
-                # the raw/buffered receive itself (and what it calls) obtains the event: stop there
-                if m is not None and m.name not in ('_receive',) and not m.name.startswith('_asgi'):
-                    work.append(m)
+
+    # the raw/buffered receive itself (and what it calls) obtains the event: stop there
+    def obtains_event(m: Func) -> bool:
+        return m.name in ('_receive',) or m.name.startswith('_asgi')
+
+    seen: Dict[str, Func] = {}
+    for e in entry:
+        seen.update(_ws_closure(p, ws, e, stop=obtains_event))
+
+    memo: Dict[str, bool] = {}
+
+    def consults(m: Func) -> bool:
+        """`m`, or a member of the class it uses (transitively), reads the flag"""
+        if m.qual not in memo:
+            memo[m.qual] = any(direct_reads(g, flags) for g in _ws_closure(p, ws, m, stop=obtains_event).values())
+        return memo[m.qual]
+
+    n_own = 0
     for q, f in sorted(seen.items()):
         run.use(f)
-        reads = [x for x in ast.walk(f.node) if isinstance(x, ast.Attribute) and x.attr in flags and isinstance(x.ctx, ast.Load)]
-        run.check(not reads, 'the receive path (%s) does not consult the sender-side disconnect flag before the queued event is obtained' % f.name,
-                  f, reads[0] if reads else 'no read of %s' % '/'.join(sorted(flags)), where=f.loc(reads[0] if reads else None),
+        if q in sender_side:
+            if f in entry:
+                raise UnknownIdiom('%s is reachable from WebSocket._send' % q)
+            continue        # sender-side code; judged at the place where the receive path enters it
+        if f.is_property():
+            continue        # judged at the place where it is read
+        n_own += 1
+        bad = list(direct_reads(f, flags))
+        bad += [e for (e, m) in _ws_helper_uses(p, ws, f) if not obtains_event(m) and (m.qual in sender_side or m.is_property()) and consults(m)]
+        bad.sort(key=lambda x: (x.lineno, x.col_offset))
+        run.check(not bad, 'the receive path (%s) does not consult the sender-side disconnect flag - directly, through a property or through a '
+                           'helper of the sender\'s side - before the queued event is obtained' % f.name,
+                  f, bad[0] if bad else 'no read of %s' % '/'.join(sorted(flags)), where=f.loc(bad[0] if bad else None),
                   runtime_witness='client sends m0 and disconnects before the next receive_*(): WebSocketDisconnected is raised and m0 is lost')
+    if n_own < len(entry):
+        raise AnchorError('receive path of WebSocket not found')
 
 
 def check(run):
